@@ -168,32 +168,45 @@ Ltac shape_expr a :=
          end
   end.
 
+Ltac shape_hyp_norm Hx :=
+  unfold shp_is in Hx; rewrite ?shape_set, ?shape_set_sub in Hx; cbn [shape full fill] in Hx;
+  try match type of Hx with
+      | _ = shape ?a => match goal with Ha : shape a = _ |- _ => rewrite Ha in Hx end
+      end.
+
 Ltac vwalk vinv unfh fin :=
   cbv beta;
   lazymatch goal with
   | |- ?P (let x := ?v in @?F x) =>
       let X := fresh "X" in
-      change (let x := v in P (F x)); intro X; cbv beta;
       let tv := type of v in
+      lazymatch v with
+      | (let y := ?a in @?G y) =>
+          (* nested binding: let x := (let y := a in G y) in F x  is  let y := a in let x := G y in F x *)
+          change (P (let y := a in let x := G y in F x))
+      | _ =>
       lazymatch tv with
       | arr _ =>
           let sh := shape_expr v in
           let Hx := fresh "Hx" in
-          assert (Hx : shp_is sh X) by (unfold X; vwalk vinv unfh fin);
-          unfold shp_is in Hx; clearbody X
+          assert (Hx : shp_is sh v) by vwalk vinv unfh fin;
+          change (let x := v in P (F x)); intro X; cbv beta;
+          change (shp_is sh X) in Hx; clearbody X; shape_hyp_norm Hx
       | _ =>
           tryif (let Pv := vinv tv in idtac)
           then (let Pv := vinv tv in
                 let Hx := fresh "Hx" in
-                assert (Hx : Pv X) by (unfold X; vwalk vinv unfh fin);
-                unfh Hx; norm_hyps; clearbody X)
-          else clearbody X
+                assert (Hx : Pv v) by vwalk vinv unfh fin;
+                change (let x := v in P (F x)); intro X; cbv beta;
+                change (Pv X) in Hx; clearbody X; unfh Hx; norm_hyps)
+          else (change (let x := v in P (F x)); intro X; cbv beta; clearbody X)
+      end
       end;
       vwalk vinv unfh fin
-  | |- ?P (if ?c then _ else _) =>
+  | |- ?P (if ?c then ?a else ?b) =>
       lazymatch c with
-      | true => cbv iota
-      | false => cbv iota
+      | true => change (P a)
+      | false => change (P b)
       | _ => destruct c
       end; vwalk vinv unfh fin
   | |- ?P (for_list ?l ?b ?s) =>
